@@ -28,4 +28,16 @@ theorem depth_unbounded_without_hop_bound : ¬ ∀ b : Bytes, (parseWith noHopCf
   rw [chain_depth_without_hop_bound.1] at this
   omega
 
+/-- D8 witness: one PTR question whose single label is 40 × `0xFF` (valid for RFC 1035, not UTF-8;
+decoded with 'replace' it re-encodes to 120 bytes) -/
+def d8Witness : Bytes :=
+  [0, 0, 0, 0, 0, 1, 0, 0, 0, 0, 0, 0] ++ [40] ++ List.replicate 40 255 ++ [0, 0, 12, 0, 1]
+
+/-- one PTR question whose name is three 63-byte labels and one of `last` bytes, all `'a'`:
+`193 + last` characters in presentation form, `194 + last` octets on the wire -/
+def longNameQuestion (last : Nat) : Bytes :=
+  [0, 0, 0, 0, 0, 1, 0, 0, 0, 0, 0, 0]
+    ++ (63 :: List.replicate 63 97) ++ (63 :: List.replicate 63 97) ++ (63 :: List.replicate 63 97)
+    ++ (last.toUInt8 :: List.replicate last 97) ++ [0, 0, 12, 0, 1]
+
 end Zc.Wire.DecodeLib
